@@ -462,10 +462,9 @@ def nsChain (p : Program) : Nat → Option Nat → List Nat
 adjacent blocks of one (emitted) name are merged.  `cur` = the blocks that are open. -/
 def wrap (names : List Named) (p : Program) : List String → List (Option Nat × List Tok) → List Tok
   | cur, [] => cur.map fun _ => .cl
-  | cur, (none, []) :: rest =>
-    -- a root definition that emits nothing leaves no node behind: the blocks around it stay adjacent
-    wrap names p cur rest
   | cur, (ns, toks) :: rest =>
+    -- a root definition that emits nothing leaves no node behind: the blocks around it stay adjacent
+    if ns.isNone && toks.isEmpty then wrap names p cur rest else
     let path := nsPath names ns
     let c := commonPrefix cur path
     let chain := nsChain p (p.nss.length + 1) ns
@@ -510,33 +509,43 @@ def entryParam (p : Program) (e : Nat) : Option Nat :=
     | .func o _ (l :: _) _ (some 'c') => if o == e then some l else none
     | _ => none
 
+/-- Metal: one `struct ArgumentBuffer<i>` per bind group -/
+def argBufferToks (names : List Named) (p : Program) : List Tok :=
+  (List.range (mslGroups p)).flatMap fun i =>
+    [Tok.decl (.file none) "S" (argBuffer i) (.gen (argBuffer i)), .op] ++
+      (((mslBound p).filter fun g => groupOf p g == i).flatMap fun g =>
+        typeToks (.genStruct (argBuffer i)) names p g ++
+          [Tok.decl (.genStruct (argBuffer i)) "M" (leaf names ⟨.global, g⟩) (.sym ⟨.global, g⟩)]) ++ [.cl]
+
+def wrapperParams (names : List Named) (p : Program) (e : Nat) : List Tok :=
+  (match entryParam p e with
+   | some l => [Tok.decl .wrapper "P" (leaf names ⟨.localVar, l⟩) (.sym ⟨.localVar, l⟩)]
+   | none => []) ++
+  ((List.range (mslGroups p)).flatMap fun i =>
+    [Tok.use .wrapper true [argBuffer i] (.gen (argBuffer i)), .decl .wrapper "P" (setName i) (.gen (setName i))])
+
+/-- the static / groupshared globals the entry point needs become locals of the wrapper -/
+def wrapperLocals (names : List Named) (p : Program) (e : Nat) : List Tok :=
+  (required p e).flatMap fun g =>
+    if isExternResource p g then [] else [Tok.decl .wrapper "L" (leaf names ⟨.global, g⟩) (.sym ⟨.global, g⟩)]
+
+def wrapperCall (names : List Named) (p : Program) (e : Nat) : List Tok :=
+  [Tok.use .wrapper false (pathOf names ⟨.func, e⟩) (.sym ⟨.func, e⟩)] ++
+  (match entryParam p e with
+   | some l => [Tok.use .wrapper false [leaf names ⟨.localVar, l⟩] (.sym ⟨.localVar, l⟩)]
+   | none => []) ++
+  ((required p e).flatMap fun g =>
+    if isExternResource p g then
+      [Tok.use .wrapper false [setName (groupOf p g)] (.gen (setName (groupOf p g))),
+       .mem .wrapper (leaf names ⟨.global, g⟩) (.sym ⟨.global, g⟩)]
+    else [Tok.use .wrapper false [leaf names ⟨.global, g⟩] (.sym ⟨.global, g⟩)])
+
 /-- Metal with a compute pipeline: argument buffer structs and the entry wrapper -/
 def mslEpilogue (names : List Named) (p : Program) : List Tok :=
   match p.pipeline with
   | some ([e], _) =>
-    let groups := List.range (mslGroups p)
-    (groups.flatMap fun i =>
-      [Tok.decl (.file none) "S" (argBuffer i) (.gen (argBuffer i)), .op] ++
-        (((mslBound p).filter fun g => groupOf p g == i).flatMap fun g =>
-          typeToks (.genStruct (argBuffer i)) names p g ++
-            [Tok.decl (.genStruct (argBuffer i)) "M" (leaf names ⟨.global, g⟩) (.sym ⟨.global, g⟩)]) ++ [.cl]) ++
-    [Tok.decl (.file none) "F" wrapperName (.gen wrapperName), .op] ++
-      (match entryParam p e with
-       | some l => [Tok.decl .wrapper "P" (leaf names ⟨.localVar, l⟩) (.sym ⟨.localVar, l⟩)]
-       | none => []) ++
-      (groups.flatMap fun i =>
-        [Tok.use .wrapper true [argBuffer i] (.gen (argBuffer i)), .decl .wrapper "P" (setName i) (.gen (setName i))]) ++
-      ((required p e).flatMap fun g =>
-        if isExternResource p g then [] else [Tok.decl .wrapper "L" (leaf names ⟨.global, g⟩) (.sym ⟨.global, g⟩)]) ++
-      [Tok.use .wrapper false (pathOf names ⟨.func, e⟩) (.sym ⟨.func, e⟩)] ++
-      (match entryParam p e with
-       | some l => [Tok.use .wrapper false [leaf names ⟨.localVar, l⟩] (.sym ⟨.localVar, l⟩)]
-       | none => []) ++
-      ((required p e).flatMap fun g =>
-        if isExternResource p g then
-          [Tok.use .wrapper false [setName (groupOf p g)] (.gen (setName (groupOf p g))),
-           .mem .wrapper (leaf names ⟨.global, g⟩) (.sym ⟨.global, g⟩)]
-        else [Tok.use .wrapper false [leaf names ⟨.global, g⟩] (.sym ⟨.global, g⟩)]) ++ [.cl]
+    argBufferToks names p ++ [Tok.decl (.file none) "F" wrapperName (.gen wrapperName), .op] ++
+      wrapperParams names p e ++ wrapperLocals names p e ++ wrapperCall names p e ++ [.cl]
   | _ => []
 
 /-- the declarations and uses of the emitted program -/
